@@ -544,8 +544,10 @@ func ProcessRedTracesIngest(myid int64) {
 	// Map from the service name to the RED metrics
 	serviceToMetrics := make(map[string]structs.RedMetrics)
 
+	// span ids are only unique within a trace: key the lookup by (trace id, span id), so that the parent of a span
+	// is never taken from another trace
 	for _, span := range spans {
-		spanIDtoService[span.SpanID] = span.Service
+		spanIDtoService[span.TraceID+"/"+span.SpanID] = span.Service
 	}
 
 	// Get entry spans
@@ -553,7 +555,7 @@ func ProcessRedTracesIngest(myid int64) {
 
 		// A span is an entry point if it has no parent or its parent is a different service
 		if len(span.ParentSpanID) != 0 {
-			parentServiceName, exists := spanIDtoService[span.ParentSpanID]
+			parentServiceName, exists := spanIDtoService[span.TraceID+"/"+span.ParentSpanID]
 			if exists && parentServiceName == span.Service {
 				continue
 			}
